@@ -8,7 +8,7 @@ PROFILE = gen.Profile(
     p_group=dict(validators=0.1, cond=0.2, unless=0.1, before=0.25, on=0.3, after=0.3, enter=0.7, exit=0.3),
     p_conv=0.3, p_nested=0.5, max_nested_rows=3, p_raise=0.05, p_validator_raise=0.05, p_unknown_event=0.05,
     n_ops=(2, 9), p_rtc_off=0.4, p_allow=0.3, p_cur0=0.5, p_start=0.4, p_activate=0.2, p_reconstruct=0.2,
-    p_write=0.07,
+    p_write=0.07, p_fresh=0.12,
 )
 PROFILE_ASYNC = gen.Profile(**{**PROFILE.__dict__, "p_coro": 0.5, "drivers": ("facade", "loop"), "p_rtc_off": 0.0})
 
